@@ -23,13 +23,21 @@ def fld(x, d):
     return x["a"][0] / x["a"][1] + x["b"][0] / x["b"][1] * math.sqrt(d)
 
 
+_V = {(1, 1): 1, (2, 2): 2, (3, 3): 3, (2, 3): 4, (1, 3): 5, (1, 2): 6}
+
+
+def canon(i, j, k, l):
+    """canonical Voigt pair of a standard tuple (harness-side, independent of cij.util.voigt)"""
+    a, b = _V[tuple(sorted((i, j)))], _V[tuple(sorted((k, l)))]
+    return (min(a, b), max(a, b))
+
+
 def full_tensor(comp):
     """comp: dict voigt pair (I<=J) -> array(n) ; -> array (n,3,3,3,3) with minor and major symmetry."""
-    from cij.util import c_
     n = len(next(iter(comp.values())))
     C = numpy.zeros((n, 3, 3, 3, 3))
     for i, j, k, l in itertools.product(range(3), repeat=4):
-        C[:, i, j, k, l] = comp[tuple(c_(i + 1, j + 1, k + 1, l + 1).voigt)]
+        C[:, i, j, k, l] = comp[canon(i + 1, j + 1, k + 1, l + 1)]
     return C
 
 
@@ -66,7 +74,7 @@ def main(ctx, replay=None):
             case = {"key": [I, J], "strain": e}
             # -- (1) own-frame requests
             try:
-                got = Counter(tuple(k.voigt) for k in s.get_modulus_keys())
+                got = Counter(canon(*k.standard) for k in s.get_modulus_keys())
             except Exception as ex:
                 ctx.violation(f"c{I}{J}: get_modulus_keys raised {ex!r}", case, {**sig, "clause": "modkeys"})
                 continue
@@ -144,7 +152,7 @@ def main(ctx, replay=None):
                 C = full_tensor(comp)
                 Crot = numpy.einsum("ia,ja,kb,lb,nijkl->nab", T, T, T, T, C)
                 s2 = S(e, K)
-                s2.modulus = {k: comp[tuple(k.voigt)] for k in s2.get_modulus_keys()}
+                s2.modulus = {k: comp[canon(*k.standard)] for k in s2.get_modulus_keys()}
                 s2.modulus_rotated = {k: Crot[:, k.voigt[0] - 1, k.voigt[1] - 1] for k in s2.get_modulus_keys_rotated()}
                 try:
                     out = numpy.asarray(s2.get_target_elastic_modulus())
